@@ -480,9 +480,10 @@ void run_meter(vf::Ctx &c) {
   const int K = 3;
   // readers: temporality per reader
   static const std::vector<std::vector<int>> kReaders = {{0}, {1}, {0, 1}, {1, 1}, {0, 0}, {1, 0}};  // 0 = delta, 1 = cumulative
-  int nrc = c.thorough() ? 6 : 4;
+  // thorough: the two remaining reader pairs for multisets of <= 3 values, recording with an attribute set for <= 2 values
+  int nrc = (c.thorough() && s.vals.size() <= 3) ? 6 : 4;
   const std::vector<int> &rt = kReaders[c.pick("readers", nrc)];
-  int with_attrs = c.thorough() ? c.pick("attrs", 2) : 0;
+  int with_attrs = (c.thorough() && s.vals.size() <= 2) ? c.pick("attrs", 2) : 0;
   std::vector<int> cyc(s.vals.size());
   for (size_t i = 0; i < s.vals.size(); ++i) cyc[i] = c.pick("cycle", K);
   // which readers collect at the end of a cycle: all of them after the last one; before that every non-empty subset
